@@ -2450,3 +2450,125 @@ pub fn lane_duo_state(seed: u64, n: usize) -> Vec<Scenario> {
     }
     out
 }
+
+// ------------------------------------------------------------------ lane: host-env
+
+/// The environment scrut itself is started in is no part of any property: a variable named
+/// after a command-line option (`SCRUT_TIMEOUT_SECONDS`, `SCRUT_SHELL` ...) or a `PWD` that its
+/// parent did not keep up to date must not change what the documents and the command line say.
+/// Scenarios of other lanes, run once more in such an environment; the oracles are unchanged.
+pub fn lane_host_env(seed: u64, prop: &str) -> Vec<Scenario> {
+    let mut bases: Vec<Scenario> = vec![];
+    bases.extend(
+        lane_cli_timing(seed, 1)
+            .into_iter()
+            .filter(|s| {
+                (s.lane.contains("doc-ShortFront/test-Absent") || s.lane.contains("doc-Absent/test-Shorter/") || s.lane.contains("doc-HugeCli/test-Absent"))
+                    && (s.lane.contains("/Long/") || s.lane.contains("/Short/"))
+                    && s.lane.contains("wait-None")
+                    && !s.lane.contains("/with-")
+            })
+            .take(24),
+    );
+    bases.extend(lane_env(seed).into_iter().filter(|s| s.lane.contains("/md/one") || s.lane.contains("/cram/one") || s.lane.contains("/md/prepend")).take(18));
+    bases.extend(lane_skip(seed).into_iter().step_by(37).take(12));
+    bases.extend(lane_cli_fates(seed, 16).into_iter().take(24));
+    bases.extend(lane_runs(seed).into_iter().step_by(5).take(16));
+    bases.extend(lane_random(Tier::Cli, seed ^ 0x4057, 40, prop));
+    let mut out = vec![];
+    for (k, b) in bases.into_iter().enumerate() {
+        if b.partner.is_some() || b.cli.command.is_some() {
+            continue;
+        }
+        let mut a = b.clone();
+        a.lane = format!("host-env/option-variables/{}", b.lane);
+        a.cli.host_env = vec![
+            ("SCRUT_TIMEOUT_SECONDS".into(), ["0", "600", "1"][k % 3].into()),
+            ("SCRUT_SHELL".into(), "/bin/false".into()),
+            ("SCRUT_WORK_DIRECTORY".into(), "$ROOT/env-work".into()),
+            ("SCRUT_KEEP_TEMPORARY_DIRECTORIES".into(), "true".into()),
+            ("SCRUT_CRAM_COMPAT".into(), "true".into()),
+            ("SCRUT_COMBINE_OUTPUT".into(), "true".into()),
+            ("SCRUT_KEEP_OUTPUT_CRLF".into(), "true".into()),
+            ("SCRUT_ABSOLUTE_LINE_NUMBERS".into(), "true".into()),
+            ("SCRUT_MATCH_MARKDOWN".into(), "*.nothing".into()),
+            ("SCRUT_MATCH_CRAM".into(), "*.nothing".into()),
+            ("SCRUT_NO_COLOR".into(), "true".into()),
+            ("SCRUT_SKIP_DOCUMENT_CODE".into(), "0".into()),
+        ];
+        out.push(a);
+        let mut c = b.clone();
+        c.lane = format!("host-env/stale-pwd/{}", b.lane);
+        c.cli.host_env = vec![("PWD".into(), "$ROOT/elsewhere".into()), ("OLDPWD".into(), "$ROOT/elsewhere/before".into())];
+        out.push(c);
+    }
+    out
+}
+
+// ------------------------------------------------------------------ lane: closed-stdout (C20)
+
+/// `scrut test ... | head -n 0`: the reader of scrut's standard output is gone, the report cannot
+/// be written. Whatever scrut does about that, a run in which a test case failed does not end
+/// with 0. (No report can be expected: only the exit status is looked at.)
+pub fn lane_closed_stdout(seed: u64) -> Vec<Scenario> {
+    let mut bases = lane_cli_fates(seed ^ 0x57d0, 5);
+    bases.extend(lane_runs(seed ^ 0x57d0).into_iter().step_by(3));
+    bases
+        .into_iter()
+        .filter(|s| s.partner.is_none() && s.cli.command.is_none() && s.sim.faults.is_empty())
+        .enumerate()
+        .map(|(i, mut s)| {
+            s.lane = format!("closed-stdout/{}", s.lane);
+            s.sim.faults.push(Fault::OutputClosed { nth: (i % 3) as u32, which: 1 });
+            // (no report can be expected)
+            s.pretty = true;
+            s.check = vec!["C20".into()];
+            s
+        })
+        .collect()
+}
+
+// ------------------------------------------------------------------ lane: detached-in-a-row
+
+/// Several `detached` test cases one after the other: scrut does not wait for any of them, so the
+/// shell of the first may not have read its script yet - which it gets through a file - when the
+/// next one is started. Each runs its own expression, once.
+pub fn lane_detached_in_a_row(seed: u64) -> Vec<Scenario> {
+    let mut out = vec![];
+    let mut g = G::new(seed ^ 0xde7a);
+    for tier in [Tier::Lib, Tier::Cli] {
+        for (shape, plans) in [
+            ("two-then-pass", vec![Fate::Detached, Fate::Detached, Fate::Pass]),
+            ("pass-three-pass", vec![Fate::Pass, Fate::Detached, Fate::Detached, Fate::Detached, Fate::Pass]),
+            ("only-two", vec![Fate::Detached, Fate::Detached]),
+            ("two-then-slow", vec![Fate::Detached, Fate::Detached, Fate::Slow { ns: SEC }, Fate::Pass]),
+        ] {
+            for latency in [1u64, 1_000_000, 20_000_000] {
+                let mut sim = base_sim(g.rng.next_u64());
+                sim.swarm.spawn_latency_max_ns = latency;
+                let tests: Vec<Test> = plans.iter().map(|f| g.test(&Plan::new(f.clone()), &mut sim.programs)).collect();
+                // (detached shells that take their time: each is still at work when the next starts)
+                for (t, f) in tests.iter().zip(plans.iter()) {
+                    if *f == Fate::Detached {
+                        sim.programs.insert(t.nonce.clone(), vec![Op::Sleep { ns: 200 * MS }, Op::Touch { rel: format!("done-{}", &t.nonce[..6]) }, Op::Sleep { ns: 200 * MS }, Op::Status { code: 0 }]);
+                    }
+                }
+                let mut sc = Scenario {
+                    lane: format!("detached-in-a-row/{:?}/{}/latency-{}ns", tier, shape, latency),
+                    tier,
+                    script_mode: false,
+                    docs: vec![doc("row/doc.md", Format::Md, tests)],
+                    cli: Cli::default(),
+                    sim,
+                    pretty: false,
+                    check: all_checks(),
+                    partner: None,
+                    turns: None,
+                };
+                fill_expectations(&mut sc, &mut g);
+                out.push(sc);
+            }
+        }
+    }
+    out
+}
